@@ -3,12 +3,141 @@ From Coq Require Import List Arith Bool Lia.
 From P9 Require Import Model.Flow.
 Import ListNotations.
 
-(* D14: the current structure (owner loop writes requests itself) over a
-   connection that buffers nothing reaches a state in which every goroutine is
-   blocked while calls are pending. *)
+(* D14: the structure before the repair (owner loop writes requests itself)
+   over a connection that buffers nothing reaches a state in which every
+   goroutine is blocked while calls are pending. *)
 Lemma current_unbuffered_deadlocks :
   exists sched s, run Current 0 (init 5) sched = Some s /\ stuck Current 0 s = true.
 Proof.
   exists deadlock_schedule.
   eexists. split; [vm_compute; reflexivity | vm_compute; reflexivity].
 Qed.
+
+(* buffering does not remove it, it only takes more calls: with [cap] frames
+   buffered per direction the same wait cycle closes with 5 + 2*cap calls
+   (shown for the capacities 1..3; the greedy adversary of the model finds it) *)
+Lemma current_buffered_deadlocks :
+  greedy_stuck Current 1 7 = true /\ greedy_stuck Current 2 9 = true /\ greedy_stuck Current 3 11 = true.
+Proof. repeat split; vm_compute; reflexivity. Qed.
+
+(* ------------------------------------------------------------ invariants *)
+
+Definition b2n (b : bool) : nat := if b then 1 else 0.
+
+(* calls that are somewhere between the caller's hand-off and the delivery of the reply *)
+Definition inflight (s : st) : nat :=
+  q s + b2n (h_writing s) + b2n (cw_writing s) + cs_buf s + b2n (sr_hold s) + h_run s + h_done s
+  + b2n (sl_send s) + b2n (sw_writing s) + sc_buf s + b2n (cr_hold s).
+
+(* every waiting caller's call is somewhere in the pipeline, and no caller is lost *)
+Definition conserved (n : nat) (s : st) : Prop :=
+  c_wait s = inflight s /\ c_new s + c_wait s + c_done s = n.
+
+(* distance of all calls from completion *)
+Definition potential (s : st) : nat :=
+  12 * c_new s + 11 * q s + 10 * (b2n (h_writing s) + b2n (cw_writing s)) + 9 * cs_buf s
+  + 8 * b2n (sr_hold s) + 7 * h_run s + 6 * h_done s + 5 * b2n (sl_send s) + 4 * b2n (sw_writing s)
+  + 3 * sc_buf s + 2 * b2n (cr_hold s).
+
+Ltac crush_step H :=
+  repeat match type of H with
+         | context [match ?x with _ => _ end] => destruct x eqn:?; cbn in H; try discriminate H
+         end;
+  try discriminate H.
+
+Lemma step_facts : forall v cap n s e s',
+  step v cap s e = Some s' ->
+  (conserved n s -> conserved n s') /\ potential s' < potential s
+  /\ (v = Fixed -> h_writing s = false -> h_writing s' = false).
+Proof.
+  intros v cap n s e s' H.
+  destruct s as [cn cw cd qq hw cww csb srh hr hd sls sww scb crh].
+  unfold conserved, inflight, potential.
+  destruct e, v; cbn in H; crush_step H; inversion H; subst; clear H; cbn;
+    repeat match goal with b : bool |- _ => destruct b end; cbn in *;
+    try (exfalso; congruence);
+    (split; [intros [? ?]; split; lia | split; [lia | intros; congruence]]).
+Qed.
+
+Lemma run_facts : forall v cap n sched s s',
+  run v cap s sched = Some s' ->
+  (conserved n s -> conserved n s')
+  /\ List.length sched + potential s' <= potential s
+  /\ (v = Fixed -> h_writing s = false -> h_writing s' = false).
+Proof.
+  intros v cap n sched. induction sched as [| e r IH]; intros s s' H; cbn in H.
+  - inversion H; subst. split; [auto | split; [cbn [List.length]; lia | auto]].
+  - destruct (step v cap s e) as [s1 |] eqn:E; [| discriminate].
+    destruct (step_facts v cap n s e s1 E) as [Hc [Hp Hw]].
+    destruct (IH s1 s' H) as [Hc' [Hp' Hw']].
+    split; [auto | split; [cbn [List.length]; lia | auto]].
+Qed.
+
+Lemma init_conserved : forall n, conserved n (init n).
+Proof. intros. unfold conserved, inflight. cbn. lia. Qed.
+
+(* --------------------------------------------------------- no stuck state *)
+
+Lemma enabled_not_stuck : forall v cap s e,
+  In e all_events -> enabled v cap s e = true -> stuck v cap s = false.
+Proof.
+  intros v cap s e Hin He. unfold stuck.
+  destruct (pending s); [| reflexivity]. cbn [andb].
+  destruct (forallb (fun e0 => negb (enabled v cap s e0)) all_events) eqn:F; [| reflexivity].
+  rewrite forallb_forall in F. specialize (F e Hin). rewrite He in F. discriminate.
+Qed.
+
+Ltac fire e := apply (enabled_not_stuck _ _ _ e); [cbn; tauto | cbn; reflexivity].
+
+(* the repaired structure: whatever the connection buffers, whenever a call is
+   pending some goroutine can move *)
+Lemma fixed_never_stuck : forall cap n s,
+  conserved n s -> h_writing s = false -> stuck Fixed cap s = false.
+Proof.
+  intros cap n s [Hc Hn] Hw.
+  destruct s as [cn cw cd qq hw cww csb srh hr hd sls sww scb crh].
+  unfold inflight in Hc. cbn in Hc, Hn, Hw. subst hw.
+  destruct crh.
+  { destruct cw as [| cw']; [cbn in Hc; lia |]. fire EDeliver. }
+  destruct scb as [| k]. 2: { fire ECRead. }
+  destruct sww. { fire ESWrite. }
+  destruct sls. { fire EToWriter. }
+  destruct hd as [| k]. 2: { fire ECompleted. }
+  destruct hr as [| k]. 2: { fire EFinish. }
+  destruct srh. { fire ESpawn. }
+  destruct csb as [| k]. 2: { fire ESRead. }
+  destruct cww. { fire ECWrite. }
+  destruct qq as [| k]. 2: { fire EQueueToWriter. }
+  destruct cn as [| k]. 2: { fire ESubmit. }
+  cbn in Hc. subst cw. reflexivity.
+Qed.
+
+(* completion for the repaired structure: from n concurrent calls, over a
+   connection of any buffering capacity and under every schedule,
+   - no reachable state is stuck,
+   - an execution has at most 12 n steps,
+   - and when no goroutine can move any more, all n callers have returned. *)
+Lemma fixed_complete : forall cap n sched s,
+  run Fixed cap (init n) sched = Some s ->
+  stuck Fixed cap s = false
+  /\ List.length sched <= 12 * n
+  /\ ((forall e, enabled Fixed cap s e = false) -> c_done s = n).
+Proof.
+  intros cap n sched s H.
+  destruct (run_facts Fixed cap n sched (init n) s H) as [Hc [Hp Hw]].
+  specialize (Hc (init_conserved n)). specialize (Hw eq_refl eq_refl).
+  pose proof (fixed_never_stuck cap n s Hc Hw) as Hns.
+  split; [exact Hns |]. split.
+  - unfold potential in Hp at 2. cbn in Hp. lia.
+  - intros Hdis. unfold stuck in Hns.
+    assert (F : forallb (fun e => negb (enabled Fixed cap s e)) all_events = true).
+    { apply forallb_forall. intros e _. rewrite Hdis. reflexivity. }
+    rewrite F in Hns. rewrite andb_true_r in Hns. unfold pending in Hns.
+    apply negb_false_iff in Hns. apply Nat.eqb_eq in Hns.
+    destruct Hc as [_ Hn]. lia.
+Qed.
+
+(* the adversarial scheduler of the model never gets the repaired structure stuck *)
+Lemma fixed_greedy_examples :
+  greedy_stuck Fixed 0 5 = false /\ greedy_stuck Fixed 0 16 = false /\ greedy_stuck Fixed 2 40 = false.
+Proof. repeat split; vm_compute; reflexivity. Qed.
